@@ -35,11 +35,18 @@ Record esdt_pay := { ep_token : bytes; ep_nonce : N; ep_amount : N }.
 Record callvalue := { cv_egld : N; cv_esdt : list esdt_pay }.
 Definition no_value : callvalue := {| cv_egld := 0; cv_esdt := [] |}.
 
+(* ledger key of an ESDT instance: fungible tokens (nonce 0) under their identifier, an NFT / SFT / meta-ESDT
+   instance under identifier # nonce (8 bytes big endian) *)
+Definition ltok (t : bytes) (nonce : N) : bytes := if nonce =? 0 then t else t ++ str "#" ++ be_enc 8 nonce.
+
+Lemma ltok_0 t : ltok t 0 = t.
+Proof. reflexivity. Qed.
+
 (* funds move from the caller to the callee before the endpoint body runs *)
 Fixpoint pay_esdts (l : ledger) (from to : bytes) (ps : list esdt_pay) : option ledger :=
   match ps with
   | [] => Some l
-  | p :: r => match transfer l from to (ep_token p) (ep_amount p) with
+  | p :: r => match transfer l from to (ltok (ep_token p) (ep_nonce p)) (ep_amount p) with
               | Some l' => pay_esdts l' from to r
               | None => None end
   end.
